@@ -245,4 +245,103 @@ def processPublishExpected : List String :=
 
 theorem C07_publish_order_tied : Mochi.Gen.processPublishOrder = processPublishExpected := by decide +kernel
 
+/-! ## `receivePacket` and the dispatch `processPacket` (C07)
+
+The model's `receivePacket` ends the connection on every error a handler returns (`(s, o, some code)`: DISCONNECT with
+the code for an MQTT 5 client when it is a failure code, then the read loop ends and the handler tears the connection
+down): "answered or closed". In Go that is the `return err` of `receivePacket` — an added branch that returns nil for
+some error (e.g. `ErrPacketTooLarge` from a refused acknowledgement) leaves the request unanswered on a connection
+that is still served, which no history without a client Maximum Packet Size exhibits. The dispatch is pinned too:
+validation before the handler, the handler's error returned before the release of a deferred message. -/
+
+def receivePacketExpected : List String := [
+  "s.processPacket",
+  "if err != nil {",
+  "if ok && cl.Properties.ProtocolVersion == 5 && code.Code >= packets.ErrUnspecifiedError.Code {",
+  "s.DisconnectClient(cl, code)",
+  "}",
+  "return err",
+  "}",
+  "return nil"
+]
+
+def processPacketExpected : List String := [
+  "switch pk.FixedHeader.Type {",
+  "case packets.Connect {",
+  "s.processConnect",
+  "}",
+  "case packets.Disconnect {",
+  "s.processDisconnect",
+  "}",
+  "case packets.Pingreq {",
+  "s.processPingreq",
+  "}",
+  "case packets.Publish {",
+  "pk.PublishValidate",
+  "if code != packets.CodeSuccess {",
+  "return code",
+  "}",
+  "s.processPublish",
+  "}",
+  "case packets.Puback {",
+  "s.processPuback",
+  "}",
+  "case packets.Pubrec {",
+  "s.processPubrec",
+  "}",
+  "case packets.Pubrel {",
+  "s.processPubrel",
+  "}",
+  "case packets.Pubcomp {",
+  "s.processPubcomp",
+  "}",
+  "case packets.Subscribe {",
+  "pk.SubscribeValidate",
+  "if code != packets.CodeSuccess {",
+  "return code",
+  "}",
+  "s.processSubscribe",
+  "}",
+  "case packets.Unsubscribe {",
+  "pk.UnsubscribeValidate",
+  "if code != packets.CodeSuccess {",
+  "return code",
+  "}",
+  "s.processUnsubscribe",
+  "}",
+  "case packets.Auth {",
+  "pk.AuthValidate",
+  "if code != packets.CodeSuccess {",
+  "return code",
+  "}",
+  "s.processAuth",
+  "}",
+  "default {",
+  "return _",
+  "}",
+  "}",
+  "s.hooks.OnPacketProcessed",
+  "if err != nil {",
+  "return err",
+  "}",
+  "if cl.State.Inflight.Len() > 0 && atomic.LoadInt32(&cl.State.Inflight.sendQuota) > 0 {",
+  "cl.State.Inflight.NextImmediate",
+  "if ok {",
+  "cl.WritePacket(next)",
+  "cl.State.Inflight.Delete(next.PacketID)",
+  "if ok {",
+  "atomic.AddInt64(&s.Info.Inflight, -1)",
+  "}",
+  "cl.State.Inflight.DecreaseSendQuota",
+  "}",
+  "}",
+  "return nil"
+]
+
+/-- **C07 (tie A).** `receivePacket` returns every handler error to the read loop. -/
+theorem C07_receive_packet_order_tied : Mochi.Gen.receivePacketOrder = receivePacketExpected := by decide +kernel
+
+/-- **C07 (tie A).** `processPacket`: validate, dispatch, return the handler's error, release one deferred message. -/
+theorem C07_process_packet_order_tied : Mochi.Gen.processPacketOrder = processPacketExpected := by decide +kernel
+
 end Mochi.TieA
